@@ -208,7 +208,64 @@ func kindOf(t types.Type) tkind {
 }
 
 // sortOf gives the scalar SMT sort used for a value of type t inside containers.
+// valueStructs: named struct types used as map keys somewhere in the module whose fields are all strings, integers or
+// booleans. They are modelled as SMT datatypes (constructor mk.T, one selector per field), so that two keys with
+// equal fields are the same key. Filled once at load time.
+var valueStructs = map[string]*types.Named{}
+
+func isValueStruct(t types.Type) bool {
+	if t == nil {
+		return false
+	}
+	n, ok := types.Unalias(t).(*types.Named)
+	if !ok {
+		return false
+	}
+	_, ok = valueStructs[typeKey(n)]
+	return ok
+}
+
+func vsName(t types.Type) string {
+	r := strings.NewReplacer("/", ".", "-", "_", "*", "")
+	return r.Replace(typeKey(t))
+}
+func vsSort(t types.Type) string          { return "VS." + vsName(t) }
+func vsCtor(t types.Type) string          { return "mk." + vsName(t) }
+func vsSel(t types.Type, f string) string { return "sel." + vsName(t) + "." + f }
+
+func vsDecl(n *types.Named) string {
+	s := n.Underlying().(*types.Struct)
+	var fs []string
+	for i := 0; i < s.NumFields(); i++ {
+		fs = append(fs, fmt.Sprintf("(%s %s)", vsSel(n, s.Field(i).Name()), sortOf(s.Field(i).Type())))
+	}
+	return fmt.Sprintf("(declare-datatypes ((%s 0)) (((%s %s))))", vsSort(n), vsCtor(n), strings.Join(fs, " "))
+}
+
+// registerValueStruct is called for every map key type found while loading.
+func registerValueStruct(t types.Type) {
+	n, ok := types.Unalias(t).(*types.Named)
+	if !ok {
+		return
+	}
+	s, ok := n.Underlying().(*types.Struct)
+	if !ok || s.NumFields() == 0 || s.NumFields() > 6 || n.TypeArgs().Len() > 0 {
+		return
+	}
+	for i := 0; i < s.NumFields(); i++ {
+		switch kindOf(s.Field(i).Type()) {
+		case kString, kInt, kUint, kBool:
+		default:
+			return
+		}
+	}
+	valueStructs[typeKey(n)] = n
+}
+
 func sortOf(t types.Type) string {
+	if len(valueStructs) > 0 && isValueStruct(t) {
+		return vsSort(t)
+	}
 	switch kindOf(t) {
 	case kInt, kUint, kRef, kTime, kStruct, kSlice, kArray, kUnit, kAtomic, kTuple:
 		return SInt
@@ -411,7 +468,22 @@ func (d *Decls) litAxioms() string {
 }
 
 func (d *Decls) text() string {
-	return strings.Join(d.list, "\n") + "\n" + strings.Join(d.funs, "\n") + "\n" + strings.Join(d.axioms, "\n") + "\n"
+	body := strings.Join(d.list, "\n") + "\n" + strings.Join(d.funs, "\n") + "\n" + strings.Join(d.axioms, "\n") + "\n"
+	return d.datatypes(body) + body
+}
+
+// datatypes declares the value-struct sorts that the given text mentions.
+func (d *Decls) datatypes(body string) string {
+	var keys []string
+	for k := range valueStructs {
+		keys = append(keys, k)
+	}
+	sort.Strings(keys)
+	out := ""
+	for _, k := range keys {
+		out += vsDecl(valueStructs[k]) + "\n"
+	}
+	return out
 }
 
 // ---------------------------------------------------------------------------
